@@ -402,3 +402,48 @@ def make_amount_like(kind):
 
 for _kind in ('amount', 'position', 'inventory'):
     make_amount_like(_kind)
+
+
+# ---------------------------------------------------------------------------
+# rows made of multi-line cells only: no result row disappears, in text or CSV
+
+def _expand_rows_check(ncols, picks, boxed, expand, spaced, as_csv):
+    columns = [Column(f'v{i}', inventory.Inventory) for i in range(ncols)]
+    rows = [tuple(INVENTORIES[p] for p in row[:ncols]) for row in picks]
+    height = lambda row: max([1] + [len(v.get_positions()) for v in row if v is not None]) if expand else 1   # noqa: E731
+    want = [height(row) for row in rows]
+    if as_csv:
+        out = io.StringIO()
+        # (the shell forwards every setting to both renderers: `spaced` is a text-only option and must not add records)
+        query_render.render_csv(columns, rows, DCONTEXT, out, expand=expand, spaced=spaced, boxed=boxed)
+        records = list(csv.reader(io.StringIO(out.getvalue())))
+        if any(len(r) != ncols for r in records):
+            return 'csv-field-count'
+        if len(records) - 1 != sum(want):
+            return 'csv-record-count'
+        return 'ok'
+    text = render(columns, rows, boxed=boxed, expand=expand, spaced=spaced, listsep=LISTSEP)
+    lines = text.split('\n')[:-1]
+    if len({len(ln) for ln in lines}) > 1:
+        return 'lines-of-different-width'
+    body = lines[(3 if boxed else 2):(-1 if boxed else None)]
+    if len(body) != sum(want) + (len(rows) if spaced else 0):
+        return 'text-line-count'
+    return 'ok'
+
+
+@cond('C16.expand.rows', quick=180,
+      bounds='1 or 2 inventory columns (no scalar column), 2 rows over the inventory palette (empty, 1..3 positions, NULL); '
+             'expand / boxed / spaced; text and CSV: every result row takes max(1, positions of its largest cell) lines / records '
+             '(one without expand) - a row whose inventories are all empty is still shown',
+      symbolic='(none)', enumerated='cells, column count, options',
+      params={'two': bool, 'a': int, 'b': int, 'c': int, 'd': int, 'boxed': bool, 'expand': bool, 'spaced': bool, 'as_csv': bool},
+      group='C16.amount')
+def expand_rows(two, a, b, c, d, boxed, expand, spaced, as_csv):
+    two = bool(two)
+    n = len(INVENTORIES) - 1
+    picks = [(enum_int(a, 0, n), enum_int(b, 0, n) if two else 0), (enum_int(c, 0, n), enum_int(d, 0, n) if two else 0)]
+    try:
+        return native(_expand_rows_check, 2 if two else 1, picks, bool(boxed), bool(expand), bool(spaced), bool(as_csv))
+    except Exception as exc:
+        return 'raises-' + type(exc).__name__
